@@ -38,6 +38,13 @@ def store_streams(q, t, prefix="store"):
 
 NOT_YET = {}
 
+def conc_streams(q, t):
+    return [
+        {"name": "conc-memory", "component": "conc", "gen": "conc-core", "opts": {"driver": "memory"}, "cases": {"quick": q, "thorough": t}, "no_shrink": True, "race": True, "corpus_filter": "^$"},
+        {"name": "conc-badger", "component": "conc", "gen": "conc-core", "opts": {"driver": "badger"}, "cases": {"quick": q, "thorough": t}, "no_shrink": True, "race": True, "corpus_filter": "^$"},
+    ]
+
+
 def pool_streams(q, t, gen="pool", prefix="pool"):
     return [
         {"name": prefix + "-memory", "component": "pool", "gen": gen, "opts": {"driver": "memory"}, "cases": {"quick": q, "thorough": t}},
@@ -55,8 +62,9 @@ PROPS = {
         "level_text": "Zero-sum is a Lean theorem over the pool model for every operation (ledger_step), every history (ledger_history, ledger_from_empty) with any configuration, clock readings, peer reports, fault pattern of the per-peer credit calls, and for every interleaving of balanced balance-call threads (ledger_all_schedules). The model is compared with the real pool on both store drivers after every operation, the ledger being read back through Stats and every balance.",
         "level_note": POOL_NOTE + " Concurrency: atomicity of each store method (mutex / badger transaction) is assumed; the badger driver's ErrConflict under concurrent writers is outside the atomic-step model (see DESIGN.md).",
         "lean_modules": ["Vipnode.Props.C01"],
-        "streams": pool_streams(100, 1000) + pool_streams(120, 1500, gen="pool-money", prefix="money"),
+        "streams": pool_streams(100, 1000) + pool_streams(120, 1500, gen="pool-money", prefix="money") + conc_streams(8, 120),
         "monitor": monitors.c01_ledger,
+        "race": True,
     },
     "C02": {
         "level_text": "Billing arithmetic (floor(elapsed*price/interval) per active peer, client debited the exact sum, hosts/zero elapsed/empty peer set move nothing, slicing bounds for every schedule and unbounded prices, consecutive keep-alives bill consecutive disjoint intervals) are Lean theorems over the balance-manager and pool models; the models are compared with the real code (manager clock injected) on both drivers.",
@@ -81,7 +89,8 @@ PROPS = {
         "level_text": "Strictly increasing accepted nonces per identity and at-most-once acceptance for every history (accepted_strictly_increasing, at_most_once, replay_rejected), rejection of stale nonces, independence of identities, at most one accepted copy under every schedule of optimistic transactions (racing_duplicates) and unobservability of the badger TTL for every history (ttl_safe) are Lean theorems about the nonce table model; the model is compared with both drivers at store level and through signed RPCs, and concurrent duplicates / TTL expiry are exercised on the real drivers.",
         "level_note": "Theorems are about Store.checkAndSaveNonce, the optimistic-transaction model txStep and the expiring table model; tie: store and pool correspondence streams (sampled), concurrent duplicate submissions on both drivers, a real TTL expiry run. Trusted: badger conflict detection and TTL implementation.",
         "lean_modules": ["Vipnode.Props.C05"],
-        "streams": store_streams(150, 1500) + pool_streams(100, 1000, gen="pool-nonce", prefix="nonce"),
+        "streams": store_streams(150, 1500) + pool_streams(100, 1000, gen="pool-nonce", prefix="nonce") + conc_streams(8, 120),
+        "race": True,
     },
     "C06": {
         "level_text": "refused_no_effect: for every endpoint of the pool and payment models and every state, a request failing authentication returns the pool state unchanged (all components, including the nonce table and the host registry) and calls no host; victim_not_burned(+_payment): the owner's next verification is unaffected by a forgery. The implementation is driven with every refusal kind interleaved in valid sessions, the full state dumped after each.",
@@ -94,8 +103,9 @@ PROPS = {
         "level_text": "withdraw_exact, withdraw_refused_or_failed_no_effect, withdraw_conserves, never_twice and racing_withdrawals (any sequence of attempts — the service serialises withdrawals) are Lean theorems about Pool.Withdraw including the settlement handler's effect on the deposit; compared with the real PaymentService over a scripted settlement handler and deposit oracle on both drivers.",
         "level_note": POOL_NOTE + " The on-chain contract is a parameter (settlement outcome ok/fail, deposit set to the new balance on success).",
         "lean_modules": ["Vipnode.Props.C07"],
-        "streams": pool_streams(150, 2000, gen="pool-money", prefix="money"),
+        "streams": pool_streams(150, 2000, gen="pool-money", prefix="money") + conc_streams(8, 120),
         "monitor": monitors.c07_withdraw,
+        "race": True,
     },
     "C08": {
         "level_text": "reply_hosts_eligible, reply_count, whitelist_calls_bounded, error_iff_empty, full_supply, failed_hosts_left_out are Lean theorems about Pool.requestHosts for every store state, every store choice, every outcome of every whitelist call; the store's choice is validated against the ActiveHosts contract (C12) on every implementation call. The real pool is driven over fake host connections scripted to acknowledge, fail or hang.",
@@ -110,11 +120,29 @@ PROPS = {
         "lean_modules": ["Vipnode.Props.C09"],
         "streams": pool_streams(150, 1500, gen="pool-peers", prefix="registry"),
     },
+    "C10": {
+        "level_text": "no_lost_update and schedule_independent (after any interleaving of acknowledged balance updates every wallet holds its initial credit plus the deltas addressed to it), peers_state_serialisable (the node and peer tables after any interleaving equal those of the serial execution in commit order, the commit point of a keep-alive being its UpdateNodePeers step: np_of_schedule), final_state_serialisable_partial, plus C05's racing_duplicates/at_most_once for nonce decisions, are Lean theorems over the atomic steps of the store. The full statement (one serial order of whole requests) is kept visible as FinalStateSerialisable; its excluded point (two in-flight keep-alives of one node) is proved to double-bill in the model (same_node_double_billing_counterexample), reproduced deterministically on the real pool and listed as a known finding. Snapshots: every balance and node record ever handed out is re-read after every later operation of the store streams. Real goroutines run the conc workloads on both drivers; their final states must equal the schedule-independent prediction.",
+        "level_note": "Partial: (1) data-race freedom is a property of the Go memory model that the Lean model cannot exhibit - supported by running the concurrent streams under -race in the thorough tier; (2) the serialisability theorem covers the tables in commit order and the balances for requests of distinct identities, not the replies' balance read-backs; (3) atomicity of each store method (mutex / badger transaction with conflict retry) is assumed.",
+        "lean_modules": ["Vipnode.Props.C10"],
+        "streams": [
+            {"name": "conc-memory", "component": "conc", "opts": {"driver": "memory"}, "cases": {"quick": 16, "thorough": 200}, "no_shrink": True, "race": True},
+            {"name": "conc-badger", "component": "conc", "opts": {"driver": "badger"}, "cases": {"quick": 16, "thorough": 200}, "no_shrink": True, "race": True},
+        ] + store_streams(150, 1500, prefix="snapshots"),
+        "race": True,
+    },
     "C11": {
         "level_text": "invalid_iff, active_after, live_never_invalid, self_report_never_invalid, unknown_never_tracked, duplicates_idempotent, pool_reply_maps and the well-formedness invariant peersWF_reachable are Lean theorems about Store.updateNodePeers and the keep-alive reply; compared with both drivers at store level and through the pool.",
         "level_note": POOL_NOTE,
         "lean_modules": ["Vipnode.Props.C11"],
         "streams": store_streams(150, 1500) + pool_streams(120, 1500, gen="pool-expiry", prefix="expiry"),
+    },
+    "C13": {
+        "level_text": "migrate_current_identity, migrate_newer_refused, migrate_preserves (from every supported format the result is the current format with nodes, peers, links, balances and trials unchanged), migrate_idempotent, reopen_identity, txn_all_or_nothing and acknowledged_survive (a crash leaves the state after the acknowledged operations or after one more, given badger's atomic durable commit), trial_never_both_nor_lost (in every committed state a linked node has no trial entry and linking never changes the ledger total) are Lean theorems about the persistence model. The real driver is run on disk: histories with close/reopen after random prefixes, a child process applying operations and killed with SIGKILL, databases prepared at formats 0, 1, 2 and 3 (raw version key), readers taking Stats snapshots while trial balances are migrated.",
+        "level_note": "Assumed, sampled by the kill stream: badger commits are atomic and durable, each store method is one transaction (the model's unit). Not modelled: OS / filesystem / fsync behaviour and badger internals (a SIGKILL leaves the page cache intact, so power-loss durability is outside what this sandbox can exercise).",
+        "lean_modules": ["Vipnode.Props.C13"],
+        "streams": [{"name": "persist-disk", "component": "persist", "cases": {"quick": 12, "thorough": 150}, "no_shrink": True},
+                    {"name": "store-badger", "component": "store", "opts": {"driver": "badger"}, "cases": {"quick": 100, "thorough": 1000}}],
+        "monitor": monitors.c13_persist,
     },
     "C14": {
         "level_text": "An invariant of the pending-reply table (distinct slot ids; every live call has a slot marked as waited-on; buffered messages only for answered ids; live ids distinct) is proved for every honest execution - every schedule of any number of concurrent callers and handlers, replies in any order, cancellations at any point, any table limit (inv_step, inv_run). From it: live_slot_protected, serve_never_blocks, ids_unique, reply_routing (own reply, other calls untouched, also when the reply arrives before the caller waits), cancel_returns_ctx_error, late_reply_never_misdelivered, handled_exactly_once, callback_completes (a handler calling back waits only on its own slot). The real jsonrpc2.Remote is driven through a harness codec that is the scheduler (the harness plays peer and network) and through concurrent storms over a pipe pair with the production table limit.",
